@@ -527,3 +527,132 @@ Proof.
       rewrite N2Z.id. replace (- Z.of_N hh * 60 + - Z.of_N mm)%Z with (- Z.of_N (60 * hh + mm))%Z by (clear; lia).
       now rewrite Zn.
 Qed.
+
+(* ---- one tagger value: v is the text after "tagger " up to the LF, rest what follows in the buffer ---- *)
+Lemma tg_ident_tag v rest : no_lf v = true -> (match rest with c :: _ => c = LF | [] => True end) ->
+  person_ok_tag v = true ->
+  v <> [] /\
+  git_copy_name (v ++ rest) = id_name (decode_ident v) /\
+  git_copy_email (v ++ rest) = LT :: id_email (decode_ident v) ++ [GT] /\
+  (date_ok_tag v = true -> git_grab_date (v ++ rest) = Some (go_date_t (decode_ident v))).
+Proof.
+  intros Hlf Hrest Hp.
+  destruct (tg_person_shape _ Hp) as [x [m [a [Ev [Hlx [Hgx [Hlm [Hgm [Hla [Hga [Hfx Hlastx]]]]]]]]]]].
+  pose proof (tg_decode_ident_shape x m a Hlm Hla Hga Hfx Hlastx) as D. rewrite <- Ev in D.
+  assert (Hlfx : no_lf x = true) by (rewrite Ev, no_lf_app in Hlf; now apply andb_true_iff in Hlf).
+  assert (EW : v ++ rest = x ++ SPC :: LT :: m ++ GT :: a ++ rest).
+  { rewrite Ev. rewrite <- app_assoc. cbn [app]. rewrite <- app_assoc. reflexivity. }
+  assert (Hne : id_name (decode_ident v) = x /\ id_email (decode_ident v) = m).
+  { rewrite D. destruct (Nat.ltb 1 (List.length a)); [apply tg_decode_time_ne|now split]. }
+  destruct Hne as [Hn He].
+  split; [rewrite Ev; now destruct x|].
+  split; [|split].
+  - rewrite EW, Hn. unfold git_copy_name. now rewrite (tg_copy_name _ _ Hlfx Hlx).
+  - rewrite EW, He.
+    replace (x ++ SPC :: LT :: m ++ GT :: a ++ rest) with ((x ++ [SPC]) ++ LT :: m ++ GT :: a ++ rest)
+      by (now rewrite <- app_assoc).
+    apply tg_copy_email; [|exact Hgm]. rewrite has_byte_app, Hlx. reflexivity.
+  - intros Hd. unfold date_ok_tag in Hd.
+    assert (Agt : last_index_of GT v = Some (List.length (x ++ SPC :: LT :: m))).
+    { rewrite Ev. replace (x ++ SPC :: LT :: m ++ GT :: a) with ((x ++ SPC :: LT :: m) ++ GT :: a) by (now rewrite <- app_assoc).
+      now apply last_index_of_unique. }
+    rewrite Agt in Hd.
+    assert (Sk : skipn (S (List.length (x ++ SPC :: LT :: m))) v = a).
+    { rewrite Ev. replace (x ++ SPC :: LT :: m ++ GT :: a) with (((x ++ SPC :: LT :: m) ++ [GT]) ++ a) by (now rewrite <- !app_assoc).
+      replace (S (List.length (x ++ SPC :: LT :: m))) with (List.length ((x ++ SPC :: LT :: m) ++ [GT]))
+        by (rewrite !app_length; cbn [List.length]; lia).
+      apply skipn_app_exact. }
+    rewrite Sk in Hd.
+    assert (Hrd : match rest with c :: _ => is_digit c = false | [] => True end)
+      by (destruct rest as [|c r]; [exact I|subst c; reflexivity]).
+    destruct (tg_date_matches x m a rest Hd Hrd) as [t [Ea [Hlen G]]].
+    apply Nat.ltb_lt in Hlen. rewrite Hlen in D. rewrite D. clear Sk Agt D. subst a. cbn [tl].
+    rewrite tg_grab_date_unfold, EW.
+    replace (x ++ SPC :: LT :: m ++ GT :: (SPC :: t) ++ rest) with ((x ++ SPC :: LT :: m) ++ GT :: SPC :: t ++ rest)
+      by (now rewrite <- app_assoc).
+    rewrite tg_find_gt_sp; [exact G|].
+    rewrite has_byte_app, !has_byte_cons, Hgx, Hgm. reflexivity.
+Qed.
+
+(* ---- the lines after "tag ...": go-git's scanner and git's find_wholine ---- *)
+Lemma tg_starts_chomp k p : no_lf k = true -> starts_with k (p ++ [LF]) = true -> starts_with k p = true.
+Proof.
+  revert p. induction k as [|x k IH]; intros p Hk H; [reflexivity|].
+  rewrite no_lf_cons in Hk. apply andb_true_iff in Hk as [H1 H2]. apply negb_true_iff in H1.
+  destruct p as [|y p].
+  - cbn in H. apply andb_true_iff in H as [H _]. congruence.
+  - cbn [app starts_with] in *. apply andb_true_iff in H as [Ha Hb]. rewrite Ha. cbn [andb]. now apply IH.
+Qed.
+
+Lemma tg_tagger_lines r3 t0 : Forall line_ok r3 -> abl r3 = true -> t_tagger t0 = ident_zero ->
+  let a := tg_agree_rest (header_of r3) in
+  let i := t_tagger (trun TTagger t0 r3) in
+  let w := tg_who r3 in
+  ta_position a = true -> ta_person a = true ->
+  (id_name i = git_copy_name w /\
+   (git_copy_email w = LT :: id_email i ++ [GT] \/ (git_copy_email w = [] /\ id_email i = []))) /\
+  (ta_date a = true -> match w with [] => Some [] | _ :: _ => git_grab_date w end = Some (go_date_t i)).
+Proof.
+  intros Hok Ha Hz. cbv zeta.
+  assert (Zero : forall i, i = ident_zero ->
+    (id_name i = git_copy_name [] /\
+     (git_copy_email [] = LT :: id_email i ++ [GT] \/ (git_copy_email [] = [] /\ id_email i = []))) /\
+    (true = true -> Some [] = Some (go_date_t i))).
+  { intros i ->. split; [split; [reflexivity|right; split; reflexivity]|reflexivity]. }
+  destruct r3 as [|l r].
+  - intros _ _. apply (Zero (t_tagger (trun TTagger t0 []))). exact Hz.
+  - inversion Hok as [|x0 y0 Hl Hr]. subst x0 y0. destruct (abl_cons _ _ Ha) as [Har Hen].
+    destruct (first_is LF l) eqn:Elf.
+    + (* the blank line right after the tag line *)
+      cbn [header_of tg_who]. rewrite Elf. intros _ _.
+      assert (Ei : t_tagger (trun TTagger t0 (l :: r)) = ident_zero).
+      { cbn [trun]. assert (Hb : is_blank l = true) by now rewrite <- (first_is_lf_blank _ Hl).
+        rewrite (tstep_blank' TTagger t0 l ltac:(discriminate) Hb).
+        destruct (ends_nl l); [|exact Hz].
+        destruct (tg_trun_keeps r TMessage t0) as [_ [_ [_ K]]]. rewrite (K ltac:(discriminate)). exact Hz. }
+      apply (Zero _ Ei).
+    + assert (Hb : is_blank l = false) by now rewrite <- (first_is_lf_blank _ Hl).
+      cbn [header_of tg_who]. rewrite Elf. cbv beta iota. unfold tg_agree_rest.
+      destruct (key_is k_tagger l) eqn:Ek.
+      * (* the tagger line *)
+        cbn [ta_position ta_person ta_date]. intros Hpos Hper. apply andb_true_iff in Hpos as [_ Hst].
+        assert (Hform : exists v tail, no_lf v = true /\ (match tail with c :: _ => c = LF | [] => True end) /\
+                  split_header l = (k_tagger, v) /\ l ++ List.concat r = (str "tagger " ++ v) ++ tail).
+        { destruct Hl as [Hne [p [Hp [El | El]]]]; subst l.
+          - apply (tg_starts_chomp (str "tagger ") _ eq_refl) in Hst. apply starts_with_spec in Hst as [v Ev]. subst p.
+            exists v, (LF :: List.concat r). split; [exact Hp|]. split; [reflexivity|]. split.
+            + rewrite (split_header_line _ Hp). reflexivity.
+            + now rewrite <- app_assoc.
+          - apply starts_with_spec in Hst as [v Ev]. subst p.
+            exists v, []. split; [exact Hp|]. split; [exact I|]. split.
+            + unfold split_header. rewrite (trim_right_nolf _ Hp). reflexivity.
+            + destruct r as [|l2 r']; [reflexivity|].
+              specialize (Hen ltac:(discriminate)). rewrite (ends_nl_no_lf _ Hp) in Hen. discriminate. }
+        destruct Hform as [v [tail [Hv [Htail [Esh Ecat]]]]].
+        assert (Eval : value_of l = v) by (unfold value_of; now rewrite Esh).
+        rewrite Eval in *.
+        assert (Ei : t_tagger (trun TTagger t0 (l :: r)) = decode_ident v).
+        { cbn [trun tstep]. rewrite Hb, Esh. change (beqb k_tagger k_tagger) with true. cbv beta iota.
+          destruct (ends_nl l); [|reflexivity].
+          destruct (tg_trun_keeps r THeaders (set_ttagger t0 (decode_ident v))) as [_ [_ [_ K]]].
+          rewrite (K ltac:(discriminate)). reflexivity. }
+        assert (Ew : git_find_wholine k_tagger (l :: r) = v ++ tail).
+        { cbn [git_find_wholine]. change (k_tagger ++ [SPC]) with (str "tagger "). rewrite Hst.
+          cbn [List.concat]. rewrite Ecat, <- app_assoc. apply tg_skip7. }
+        rewrite Ei, Ew.
+        destruct (tg_ident_tag v tail Hv Htail Hper) as [Hne [Gn [Ge Gd]]].
+        split; [split; [now rewrite Gn|left; exact Ge]|].
+        intros Hdate. rewrite <- (Gd Hdate). destruct (v ++ tail) eqn:Evt; [|reflexivity].
+        apply app_eq_nil in Evt as [Evt _]. contradiction.
+      * (* some other header line: no tagger at all *)
+        cbn [ta_position ta_person ta_date]. intros Hpos _. rewrite andb_true_r in Hpos. apply negb_true_iff in Hpos.
+        assert (Ew : git_find_wholine k_tagger (l :: r) = []).
+        { apply tg_wholine_none; [exact Elf|]. cbn [header_of]. rewrite Elf. exact Hpos. }
+        rewrite Ew. apply Zero.
+        cbn [trun]. pose proof (tg_on_theaders_keeps t0 l) as K. cbv zeta in K.
+        assert (Es : tstep TTagger t0 l = on_theaders t0 l).
+        { cbn [tstep]. rewrite Hb. unfold key_is in Ek. destruct (split_header l) as [key data]. cbn [fst] in Ek. now rewrite Ek. }
+        rewrite Es. destruct (on_theaders t0 l) as [t' st']. cbn [fst snd] in K. destruct K as [_ [_ [_ [K1 K2]]]].
+        destruct (ends_nl l); [|congruence].
+        destruct (tg_trun_keeps r st' t') as [_ [_ [_ K]]]. rewrite (K K2). congruence.
+Qed.
